@@ -73,7 +73,7 @@ Definition corder_for (w : world) (o : op) (seen : obs) : list nat :=
 Definition s_agrees (so : option obs) (o : obs) : bool :=
   match so with Some x => obs_eqb false x o | None => true end.
 
-Fixpoint run (w : world) (sw : sworld) (guarded : bool) (ops : list op) (seen : list obs) : N :=
+Fixpoint crun (w : world) (sw : sworld) (guarded : bool) (ops : list op) (seen : list obs) : N :=
   match ops, seen with
   | o :: ops', ob :: seen' =>
       let ro := rorder_for w o in
@@ -82,13 +82,13 @@ Fixpoint run (w : world) (sw : sworld) (guarded : bool) (ops : list op) (seen : 
       let '(w', m) := step w o ro co in
       let '(sw', so) := sstep sw o in
       if obs_eqb true m ob then
-        if g && negb (s_agrees so m) then 3%N else run w' sw' g ops' seen'
+        if g && negb (s_agrees so m) then 3%N else crun w' sw' g ops' seen'
       else
         if negb (s_agrees so ob) && (g || s_agrees so m) then 2%N else 1%N
   | _, _ => 0%N
   end.
 Definition check_case (c : case) : N :=
-  if Nat.eqb (length (fst c)) (length (snd c)) then run w0 sw0 true (fst c) (snd c) else 1%N.
+  if Nat.eqb (length (fst c)) (length (snd c)) then crun w0 sw0 true (fst c) (snd c) else 1%N.
 
 Fixpoint check_all_from (i : N) (cs : list case) : list (N * N) :=
   match cs with
